@@ -19,7 +19,7 @@ RULE = (
     "(digits, signs, . , e E _ n a i f blank tab newline NUL, Arabic-Indic and full-width digits, / :) placed at "
     "column 0 and inside a 2-character margin whose content varies (locality twins); random longer lines; bytes: all "
     "65536 two-byte payloads for 2-byte ints and floats, sampled 4/8-byte payloads, every truncation length, invalid "
-    "UTF-8 families; failing reads interleaved with succeeding ones (no stale value), three lines in ten of a random sequence repeat an earlier line of it. Independently the model's "
+    "UTF-8 families; failing reads interleaved with succeeding ones (no stale value), three lines in ten of a random sequence repeat an earlier line of it; a quarter of the random sequences, every fourth exhaustive batch and every other two-byte batch hand the SAME field object lines of BOTH kinds (str and bytes interleaved, an earlier line of the first kind read again afterwards): each read means what its own line's kind and span mean, whatever kind was read before. Independently the model's "
     "expectation is compared with CPython's own int()/float()/strptime()/strip()/struct on the same span (model "
     "validation). non-trivial = the span is not empty; distinct by full case."
 )
@@ -100,10 +100,17 @@ def run_impl(case):
             except Exception:
                 pass
         try:
-            ret = codec.enc_val(f.read(line))
+            got = f.read(line)
+            ret = codec.enc_val(got)
             kept = codec.enc_val(f.value)  # what the field object holds afterwards (what Line.read gathers)
             # the property is about both: a failed parse must not leave the previous value behind
-            outs.append(ret if ret == kept else {"exc": "ReturnedAndStoredDiffer", "msg": f"read() returned {ret} but field.value is {kept}"})
+            if ret != kept:
+                outs.append({"exc": "ReturnedAndStoredDiffer", "msg": f"read() returned {ret} but field.value is {kept}"})
+            elif isinstance(ret, dict) and ("b" in ret or "other" in ret):
+                # no reference interpretation of any span is a value of such a type (bytes, ...)
+                outs.append({"exc": "ResultOfAnotherType", "msg": f"read() returned {got!r:.80}, a {type(got).__name__}"})
+            else:
+                outs.append(ret)
         except Exception as e:
             outs.append(codec.enc_exc(e))
         span = span_of(case["field"], line)
@@ -131,7 +138,13 @@ def judge(case, obs, resp):
         b = resp["first_bad"]
         i = b["index"]
         got = obs["outs"][i]
-        what = (got.get("msg") or f"raised {got['exc']}") if isinstance(got, dict) and "exc" in got else f"returned {got}"
+        if isinstance(got, dict) and "exc" in got:
+            what = got["msg"] if got["exc"] in ("ReturnedAndStoredDiffer", "ResultOfAnotherType") else f"raised {got['exc']}: {got.get('msg')}"
+        else:
+            what = f"returned {got}"
+        kinds = ["bytes" if "b" in l else "str" for l in case["lines"]]
+        if i and kinds[i] not in kinds[:i]:
+            what = f"(a {kinds[i]} line, after {kinds[0]} lines through the same field object) " + what
         return {"status": "oracle", "why": f"read #{i} {what}; the span means {b['expected']}"}
     return {"status": "ok", "why": ""}
 
@@ -142,6 +155,8 @@ def nontrivial(case):
 
 def features(case, obs):
     f = [f"kind={case['field']['k']}", "bytes" if "b" in case["lines"][0] else "str", f"reads={min(len(case['lines']), 64)}"]
+    if len(kinds_of(case)) > 1:
+        f.append("str_and_bytes_through_one_object")
     outs = obs.get("outs", [])
     n_none = sum(1 for o in outs if o is None)
     f.append("has_invalid_span" if n_none else "all_valid")
@@ -150,8 +165,12 @@ def features(case, obs):
     return f
 
 
+def kinds_of(case):
+    return {"b" if "b" in l else "s" for l in case["lines"]}
+
+
 def signature(rec):
-    return rec["case"]["field"]["k"] + ("b" if "b" in rec["case"]["lines"][0] else "s")
+    return rec["case"]["field"]["k"] + ("b" if "b" in rec["case"]["lines"][0] else "s") + ("+mixed" if len(kinds_of(rec["case"])) > 1 else "")
 
 
 def matches_known(trigger, case):
@@ -183,6 +202,22 @@ def exhaustive_text(fd, maxlen, alpha, seed):
     rng = random.Random(seed)
     batch = []
     i = 0
+    nb = 0
+
+    def out(batch):
+        # every fourth batch is read through a field object that is also handed bytes lines (the UTF-8
+        # encoding of the neighbouring str line) in between
+        nonlocal nb
+        nb += 1
+        if nb % 4 == 0:
+            mixed = []
+            for j, l in enumerate(batch):
+                mixed.append(l)
+                if j % 16 == 7:
+                    mixed.append(codec.enc_data(codec.dec_data(l).encode("utf-8")))
+            batch = mixed
+        return {"field": fd, "lines": batch}
+
     for n in range(0, maxlen + 1):
         for tup in itertools.product(alpha, repeat=n):
             s = "".join(tup)
@@ -194,10 +229,10 @@ def exhaustive_text(fd, maxlen, alpha, seed):
             batch.append(codec.enc_data(line))
             i += 1
             if len(batch) == 64:
-                yield {"field": fd, "lines": batch}
+                yield out(batch)
                 batch = []
     if batch:
-        yield {"field": fd, "lines": batch}
+        yield out(batch)
 
 
 TOKENS = ["1", "12", "-3", "+4", "1.5", "1,5", ".5", "5.", "1e3", "1E-2", "1_0", "_1", "1_", "1__0", "nan", "inf", "-inf", "Infinity",
@@ -219,15 +254,39 @@ def random_text_case(rng, fd_pool):
             # that run_impl interleaves): the same span must read the same
             lines.append(rng.choice(lines))
             continue
-        r = rng.random()
-        if r < 0.6:
-            span = rng.choice(TOKENS)
-            span = span.center(rng.randrange(len(span), len(span) + 4)) if rng.random() < 0.5 else span
-        else:
-            span = "".join(rng.choice(ALPHA) for _ in range(rng.randrange(0, 10)))
-        pre = "".join(rng.choice("7x 9.-") for _ in range(fd["start"]))
-        line = (pre + span)[: rng.randrange(0, len(pre + span) + 1)] if rng.random() < 0.15 else pre + span + rng.choice(["", "9", " 7", "\n"])
-        lines.append(codec.enc_data(line))
+        lines.append(codec.enc_data(a_text_line(rng, fd)))
+    return mix_kinds(rng, {"field": fd, "lines": lines})
+
+
+def a_text_line(rng, fd):
+    r = rng.random()
+    if r < 0.6:
+        span = rng.choice(TOKENS)
+        span = span.center(rng.randrange(len(span), len(span) + 4)) if rng.random() < 0.5 else span
+    else:
+        span = "".join(rng.choice(ALPHA) for _ in range(rng.randrange(0, 10)))
+    pre = "".join(rng.choice("7x 9.-") for _ in range(fd["start"]))
+    return (pre + span)[: rng.randrange(0, len(pre + span) + 1)] if rng.random() < 0.15 else pre + span + rng.choice(["", "9", " 7", "\n"])
+
+
+def mix_kinds(rng, case, p=0.25):
+    """With probability p the sequence becomes one of BOTH kinds of line for the same field object: before
+    each line possibly a line of the other kind (at least one in all), and at the end possibly an earlier
+    line of the original kind once more. What each read means is still decided by its own line alone."""
+    if rng.random() >= p:
+        return case
+    fd = case["field"]
+    other = a_bytes_line if "s" in case["lines"][0] else a_text_line
+    lines, added = [], 0
+    for l in case["lines"]:
+        if rng.random() < 0.5:
+            lines.append(codec.enc_data(other(rng, fd)))
+            added += 1
+        lines.append(l)
+    if not added:
+        lines.append(codec.enc_data(other(rng, fd)))
+    if rng.random() < 0.5:
+        lines.append(rng.choice(case["lines"]))
     return {"field": fd, "lines": lines}
 
 
@@ -237,11 +296,16 @@ BAD_UTF8 = [b"\x80", b"\xc0\x80", b"\xed\xa0\x80", b"\xe2\x82", b"\xf5\x80\x80\x
 def bytes_cases_2byte(kind, part, of):
     fd = codec.fd_int(2, 0) if kind == "int" else codec.fd_flt(2, 0)
     batch = []
+    nb = 0
     for v in range(part, 65536, of):
         batch.append(codec.enc_data(struct.pack("<H", v)))
-        if len(batch) == 256:
+        if len(batch) % 64 == 32 and nb % 2 == 1:
+            # every other batch: str lines in between, through the same field object
+            batch.append(codec.enc_data(["12", "-3", " 7", "1.5", "x", ""][(v // of) % 6]))
+        if len(batch) >= 256:
             yield {"field": fd, "lines": batch}
             batch = []
+            nb += 1
     if batch:
         yield {"field": fd, "lines": batch}
 
@@ -258,25 +322,29 @@ def random_bytes_case(rng):
         fd = codec.fd_date(rng.randrange(6, 12), start, rng.choice([["%Y/%m/%d"], ["%d%m%y", "%Y%m%d"]]))
     lines = []
     for _ in range(rng.randrange(1, 10)):
-        n = fd["size"]
-        r = rng.random()
-        if k in ("int", "flt"):
-            if r < 0.3:
-                payload = rng.choice([b"\x00" * n, b"\xff" * n, b"\x00" * (n - 1) + b"\x80", b"\xff" * (n - 1) + b"\x7f", b"\x00" * (n - 2) + b"\xf0\x7f", b"\x01" + b"\x00" * (n - 1)])[:n]
-            else:
-                payload = bytes(rng.randrange(256) for _ in range(n))
+        lines.append(codec.enc_data(a_bytes_line(rng, fd)))
+    return mix_kinds(rng, {"field": fd, "lines": lines})
+
+
+def a_bytes_line(rng, fd):
+    k, start, n = fd["k"], fd["start"], fd["size"]
+    r = rng.random()
+    if k in ("int", "flt"):
+        if r < 0.3:
+            payload = rng.choice([b"\x00" * n, b"\xff" * n, b"\x00" * (n - 1) + b"\x80", b"\xff" * (n - 1) + b"\x7f", b"\x00" * (n - 2) + b"\xf0\x7f", b"\x01" + b"\x00" * (n - 1)])[:n]
         else:
-            if r < 0.4:
-                payload = rng.choice(BAD_UTF8) + b"ab"
-            elif r < 0.7 and k == "date":
-                payload = rng.choice([b"2021/02/03", b"030221", b"20210203", b"2021/13/03", b" 030221 "])
-            else:
-                payload = bytes(rng.choice(b"ab 12/\t\xc3\xa9") for _ in range(n))
-        line = bytes(rng.randrange(256) for _ in range(start)) + payload + bytes(rng.randrange(256) for _ in range(rng.randrange(0, 3)))
-        if rng.random() < 0.25:
-            line = line[: rng.randrange(0, len(line) + 1)]
-        lines.append(codec.enc_data(line))
-    return {"field": fd, "lines": lines}
+            payload = bytes(rng.randrange(256) for _ in range(n))
+    else:
+        if r < 0.4:
+            payload = rng.choice(BAD_UTF8) + b"ab"
+        elif r < 0.7 and k == "date":
+            payload = rng.choice([b"2021/02/03", b"030221", b"20210203", b"2021/13/03", b" 030221 "])
+        else:
+            payload = bytes(rng.choice(b"ab 12/\t\xc3\xa9") for _ in range(n))
+    line = bytes(rng.randrange(256) for _ in range(start)) + payload + bytes(rng.randrange(256) for _ in range(rng.randrange(0, 3)))
+    if rng.random() < 0.25:
+        line = line[: rng.randrange(0, len(line) + 1)]
+    return line
 
 
 def corpus_cases():
@@ -337,10 +405,17 @@ def cases_of(chunk):
 
 def shrinks(case):
     ls = case["lines"]
-    if len(ls) > 1:
-        for i in range(len(ls)):
+    n = len(ls)
+    if n > 1:
+        # whole blocks first (halves, quarters, ...), so that a long batch comes down in few steps
+        k = n // 2
+        while k >= 2:
+            for i in range(0, n, k):
+                yield {**case, "lines": ls[:i] + ls[i + k :]}
+            k //= 2
+        for i in range(n):
             yield {**case, "lines": ls[:i] + ls[i + 1 :]}
-        for i in range(len(ls)):
+        for i in range(n):
             yield {**case, "lines": [ls[i]]}
     for i, l in enumerate(ls):
         key = "s" if "s" in l else "b"
